@@ -4,7 +4,7 @@ them by name."""
 import re
 import sys
 
-from . import transform, regroup, join, arith, interp, reshape, missing
+from . import transform, regroup, join, arith, interp, reshape, missing, align
 
 
 def clauses_only(cls, pattern, prop, suffix):
@@ -40,7 +40,8 @@ META = r"metadata"
 FRAME_CONTRACTS = [clauses_only(c, FRAME, "C15", "Frame") for c in (
     transform.Reduce, transform.ReduceTuple, transform.Cumulative, transform.ArgExtremum, transform.Diff,
     regroup.Flatten, regroup.Unflatten, regroup.Reshape, join.Stack, join.Concatenate, arith.ScalarOperation, arith.Operation,
-    interp.Interp1D, reshape.RollAxis, missing.FillNa, missing.SetNa, missing.CompressAxis, missing.DropNa1D)]
+    interp.Interp1D, reshape.RollAxis, missing.FillNa, missing.SetNa, missing.CompressAxis, missing.DropNa1D,
+    align.ReindexAxis, align.ReindexLike, reshape.Broadcast, reshape.BroadcastArrays, missing.DropNaND)]
 
 META_CONTRACTS = [clauses_only(c, META, "C16", "Meta") for c in (
     transform.Reduce, transform.ReduceTuple, transform.Cumulative, transform.Diff,
